@@ -2327,13 +2327,69 @@ def site_write_batch_allocation(fns):
     return ob.result(it, witness="c13_model_accounting_and_reopen+c02_flush_covers_requeued_writes")
 
 
+def site_process_completions(fns):
+    f = mir.find(fns, "::process_completions", None)
+    ob = Ob("site_process_completions_step", "io.rs process_completions, one ARBITRARY completion-queue entry (state havocked): an entry is attributed to registry slot user_data - base only when "
+            "that index is below the number of queued submissions of THIS batch (a stale or foreign completion touches no buffer); the slot is released through mark_complete and counted "
+            "only when mark_complete accepted it (a duplicate completion neither frees a buffer twice nor is counted twice); completed_count grows by exactly one per accepted entry; the "
+            "result is validated against the length of the SAME slot's buffer and only the first error is kept", "one iteration of the completion loop from an arbitrary state", f)
+    hdr = main_loop_header(f)
+    if hdr is None:
+        raise mir.MirError("completion loop not found")
+    it = Interp(f, loop_bound=1, pure=PURE)
+    base, queued = z3.BitVec("user_data_base", 64), z3.BitVec("queued", 64)
+    reg = z3.Const("buffers", U)
+
+    def init(it_, st):
+        st["env"]["_2"] = base
+        st["env"]["_3"] = queued
+        st["env"]["_4"] = reg
+    counted = skipped = 0
+    for p in it.run(init, start=hdr, stop=(hdr,)):
+        ob.paths += 1
+        if p.status != "backedge":
+            continue
+        ud = events(p, "cqueue::Entry::user_data")
+        mc = events(p, "InFlightBuffers::mark_complete")
+        cnt = [e for e in p.events if e.kind == "write" and e.callee == "deref" and z3.is_bv(e.args[1]) and e.args[1].size() == 64]
+        gt = events(p, "InFlightBuffers::get")
+        val = events(p, "validate_write_completion")
+        if not ob.must_hold(len(ud) == 1, "the entry's user_data is read"):
+            continue
+        idx = ud[0].ret - base
+        if not mc:
+            skipped += 1
+            ob.need(it, p.pc, z3.UGE(idx, queued), "an entry is ignored without consulting the registry only when its index is not below `queued`")
+            ob.must_hold(not cnt and not gt and not val, "an ignored entry changes nothing")
+            continue
+        ob.need(it, mc[0].pc, z3.ULT(idx, queued), "the registry is consulted only for an index below the number of queued submissions")
+        ob.need(it, mc[0].pc, mc[0].args[1] == idx, "the slot is user_data - user_data_base")
+        ob.must_hold(z3.eq(it.as_u(mc[0].args[0]), reg), "the slot belongs to this batch's registry")
+        if cnt:
+            counted += 1
+            ob.need(it, p.pc, mc[0].ret, "a completion is counted only when mark_complete accepted it (first completion of an in-flight slot)")
+            ob.must_hold(len(cnt) >= 1 and z3.is_bv(cnt[0].args[0]) and it.entails(p.pc, cnt[0].args[1] == cnt[0].args[0] + 1)[0], "completed_count += 1")
+            for g in gt:
+                ob.need(it, p.pc, g.args[1] == idx, "the length used for validation is the SAME slot's buffer length")
+            for v in val:
+                ln = [e for e in p.events if e.kind == "call" and e.callee.endswith("PendingWriteBuffer::len") and z3.is_expr(v.args[1]) and z3.eq(e.ret, v.args[1])]
+                ob.must_hold(bool(gt) and len(ln) == 1 and z3.eq(it.as_u(ln[0].args[0]), it.as_u(gt[0].ret)), "validate_write_completion(result, len of that slot's buffer)")
+                isn = events(p, "Option::is_none")
+                ob.must_hold(bool(isn) and idx_of(p, isn[0]) < idx_of(p, v), "only the first error is kept")
+        else:
+            ob.need(it, p.pc, z3.Not(mc[0].ret), "an entry is dropped after mark_complete only when mark_complete rejected it (duplicate / not in flight)")
+            ob.must_hold(not gt and not val, "a rejected entry is not validated or counted")
+    ob.must_hold(counted >= 2 and skipped >= 1, "counted and ignored entries were reached (%d/%d)" % (counted, skipped))
+    return ob.result(it, witness="c20_inflight_buffers_own_their_bytes")
+
+
 # ============================================================================ C19: which worker owns which shard
 def c19(fns, tier, env):
     return finalize([site_shard_ownership(fns), site_coordinator_liveness(fns), site_flush_worker_requeue(fns)], env)
 
 
 def c20(fns, tier, env):
-    return finalize([site_tree_slot_store(fns), site_range_query(fns), site_batch_write_buffers(fns)], env)
+    return finalize([site_tree_slot_store(fns), site_range_query(fns), site_batch_write_buffers(fns), site_process_completions(fns)], env)
 
 
 def site_shard_ownership(fns):
